@@ -69,6 +69,19 @@ Theorem C17_non_api : forall (c : cfg) (r : req), route c r <> Api ->
 Proof. exact non_api. Qed.
 Print Assumptions C17_non_api.
 
+(* Wrong secrets in the standard forms are refused, for EVERY other user/password pair and every other token, whatever
+   else is configured (a configured token does not let a wrong Basic pair through, nor the reverse), and the API handler
+   does not run. *)
+Theorem C17_wrong_basic_denied : forall (c : cfg) (r : req) (u p u' p' : la), basic c = Some (u, p) -> ~ In colon u' ->
+  (u', p') <> (u, p) -> route c r = Api -> hdr r = std_basic u' p' -> chain c r = Unauth /\ served c r = false.
+Proof. exact wrong_basic_denied. Qed.
+Print Assumptions C17_wrong_basic_denied.
+
+Theorem C17_wrong_token_denied : forall (c : cfg) (r : req) (t t' : la), token c = Some t -> ~ In sp t' -> t' <> t ->
+  route c r = Api -> hdr r = std_bearer t' -> chain c r = Unauth /\ served c r = false.
+Proof. exact wrong_token_denied. Qed.
+Print Assumptions C17_wrong_token_denied.
+
 (* Non-vacuity: the premises above are met by concrete states and the outcomes differ. *)
 Example C17_ex_encoding : b64_enc (L "admin:secret") = L "YWRtaW46c2VjcmV0" /\ b64_enc (L "a") = L "YQ==" /\ b64_enc (L "ab") = L "YWI=".
 Proof. exact ex_enc. Qed.
@@ -99,3 +112,8 @@ Example C17_ex_colon_password :
   chain cfg_colon {| method := L "GET"; path := L "/api/v1/dags"; rawpath := []; hdr := std_basic (L "admin") (L "a") |} = Unauth /\
   parse_basic (std_basic (L "admin") (L "a:b:c")) = Some (L "admin", L "a:b:c").
 Proof. exact ex_colon_password. Qed.
+Example C17_ex_wrong_premises :
+  basic cfg_both = Some (L "admin", L "secret") /\ ~ In colon (L "admin") /\ (L "admin", L "secreT") <> (L "admin", L "secret") /\
+  token cfg_both = Some (L "tok123") /\ ~ In sp (L "tok124") /\ L "tok124" <> L "tok123" /\
+  route cfg_both {| method := L "GET"; path := L "/bd/api/v1/dags"; rawpath := []; hdr := std_basic (L "admin") (L "secreT") |} = Api.
+Proof. exact ex_wrong_premises. Qed.
